@@ -20,7 +20,7 @@ import (
 // C20 — listener bandwidth limits bound throughput per direction without altering data.
 
 type c20Conn struct {
-	Kind  string `json:"kind"`  // download | upload | tunnel-down | tunnel-up | download-chunked
+	Kind  string `json:"kind"` // download | upload | tunnel-down | tunnel-up | download-chunked
 	Bytes int    `json:"bytes"`
 }
 
@@ -470,9 +470,9 @@ func init() {
 			}
 			return sb.String()
 		},
-		Real: append([]string{"ratelimit.Listener / ratelimit.Conn (x/time/rate limiter shared by the listener's connections), connfu wrapper configuration, SizeSuffix"}, realForwarder...),
-		Stub: stubCommon,
-		Rule: "read and write limits drawn independently from {none, 64 KiB/s .. 16 MiB/s}; 1-7 (sometimes 12-27) connections sharing the listener, each a download (Content-Length or chunked), upload or tunnel in one direction, 16 MiB (thorough: sometimes 48 MiB) per limited direction; ample link capacity and no injected delay, so only the limiter moves the fake clock. Oracle: burst := bytes that crossed before the clock first moved; throttling must happen at all; every window after that carries at most rate x time + 64 KiB per connection (summed over all connections: a shared bucket); an unlimited direction takes zero simulated time; payload byte-exact.",
+		Real:        append([]string{"ratelimit.Listener / ratelimit.Conn (x/time/rate limiter shared by the listener's connections), connfu wrapper configuration, SizeSuffix"}, realForwarder...),
+		Stub:        stubCommon,
+		Rule:        "read and write limits drawn independently from {none, 64 KiB/s .. 16 MiB/s}; 1-7 (sometimes 12-27) connections sharing the listener, each a download (Content-Length or chunked), upload or tunnel in one direction, 16 MiB (thorough: sometimes 48 MiB) per limited direction; ample link capacity and no injected delay, so only the limiter moves the fake clock. Oracle: burst := bytes that crossed before the clock first moved; throttling must happen at all; every window after that carries at most rate x time + 64 KiB per connection (summed over all connections: a shared bucket); an unlimited direction takes zero simulated time; payload byte-exact.",
 		Assumptions: []string{"the burst allowance is not documented; it is learnt per run as the bytes that crossed before the clock first moved and must be smaller than the transfer", "one write per connection may be sent on credit before the limiter waits (64 KiB slack per connection)"},
 	})
 }
